@@ -2,6 +2,7 @@
     Only statements; every proof is [exact] of a lemma from Proofs/. *)
 From Coq Require Import List Arith Bool NArith ZArith Lia.
 From Pike Require Import Model.LRU Model.Dispatcher Proofs.LRUProofs Proofs.DispatcherProofs.
+From Pike Require Proofs.LRUSpec.
 Import ListNotations.
 
 (** For every key type, every hash function, every configured size, every
@@ -39,6 +40,28 @@ Theorem C11_shard_ordered_by_recency :
     NoDup (keys l) /\ subseq (keys l) (fold_left (recency_step keqb) ops []).
 Proof. intros K V keqb Hk. exact (shard_recency_order keqb Hk). Qed.
 Print Assumptions C11_shard_ordered_by_recency.
+
+(** Refinement to the simplest specification of an LRU with capacity [max]
+    (0 = unlimited) — "touch k: put k in front, keep the first max; del k: drop
+    k" —: over every history the shard's keys, in order, ARE the
+    specification's list; so the key dropped by a full shard is exactly the
+    least recently used one, and a lookup finds its key iff the specification
+    lists it.  (This is the specification the recency monitor of
+    Corr/C11Corr.v evaluates on the implementation's observations.) *)
+Theorem C11_shard_refines_recency_spec :
+  forall (K V : Type) (keqb : K -> K -> bool), (forall a b, keqb a b = true <-> a = b) ->
+  forall max (ops : list (@sop K V)),
+    keys (fold_left (shard_step keqb max) ops []) = fold_left (Pike.Proofs.LRUSpec.spec_step keqb max) ops [].
+Proof. intros K V keqb Hk. exact (Pike.Proofs.LRUSpec.shard_refines_spec keqb Hk). Qed.
+Print Assumptions C11_shard_refines_recency_spec.
+
+Theorem C11_resident_iff_spec :
+  forall (K V : Type) (keqb : K -> K -> bool), (forall a b, keqb a b = true <-> a = b) ->
+  forall max (ops : list (@sop K V)) k,
+    (exists v, find keqb k (fold_left (shard_step keqb max) ops []) = Some v)
+    <-> In k (fold_left (Pike.Proofs.LRUSpec.spec_step keqb max) ops []).
+Proof. intros K V keqb Hk. exact (Pike.Proofs.LRUSpec.resident_iff_spec keqb Hk). Qed.
+Print Assumptions C11_resident_iff_spec.
 
 (** A key that is not resident (never seen, dropped or removed) gets a fresh
     entry on next use (status unknown: fetched or reloaded from the store),
